@@ -9,6 +9,7 @@ from .lib import (DELAY, EOM_RISE, FALL, IS_DETUNED_DELAY, PULSE, RISE, TARGET, 
                   sch_dom, sch_get, sch_has, sch_map, sch_maxdur, sch_maxdur_none, valid_channel_f)
 
 SF = "pulser-core/pulser/sequence/_schedule.py"
+LRT_HYPS = ("len>=0", "kinds", "monotone", "contiguous", "targets-change-only-at-target-slots", "retarget-after-fall")
 
 
 # --------------------------------------------------------------------------
@@ -23,10 +24,11 @@ def fall_bounds(h, cs):
 
 
 def INV(h, cs, split=None, only=None):
-    n = cs_len(h, cs)
-    arr = cs_arr(h, cs)
+    return INVA(cs_arr(h, cs), cs_len(h, cs), cs_chan(cs), split, only)
+
+
+def INVA(arr, n, ch, split=None, only=None):
     at = lambda k: z3.Select(arr, k)
-    ch = cs_chan(cs)
     c, m = clock(ch), min_dur(ch)
     sp = split or []
     cl = [
@@ -50,10 +52,19 @@ def INV(h, cs, split=None, only=None):
         ("targets-change-only-at-target-slots", Q([I], lambda k: (z3.And(1 <= k, k < n, s_kind(at(k)) != TARGET),
                                                                   s_targets(at(k)) == s_targets(at(k - 1))),
                                                   pats=lambda k: [at(k)], split=sp)),
+        ("retarget-after-fall", Q([I, I], lambda t, p: (
+            z3.And(1 <= t, t < n, s_kind(at(t)) == TARGET, 0 <= p, p < t, s_kind(at(p)) == PULSE, no_pulse_between(arr, p, t)),
+            s_tf(at(p)) + FALL(s_pulse(at(p)), ch, z3.BoolVal(False)) <= s_ti(at(t))),
+            pats=lambda t, p: [(at(t), at(p))], split=sp)),
     ]
     if only:
         cl = [x for x in cl if x[0] in only]
     return cl
+
+
+def no_pulse_between(arr, p, t):
+    j = z3.Int("j!npb")
+    return z3.ForAll([j], z3.Implies(z3.And(p < j, j < t), s_kind(z3.Select(arr, j)) != PULSE), patterns=[z3.Select(arr, j)])
 
 
 def EOMWF(h, cs):
@@ -62,10 +73,19 @@ def EOMWF(h, cs):
                                       z3.Implies(eb_len(h, cs) > 0, z3.Not(fnone("Channel", "eom_config", cs_chan(cs))))))]
 
 
+def bridges(c, cs):
+    """proof steps: relate selects on the old and the new slot array (triggers in both directions)."""
+    n0 = cs_len(c.old, cs)
+    return [("assert:bridge-old-to-new", Q([I], lambda k: (z3.And(0 <= k, k < n0), cs_at(c.new, cs, k) == cs_at(c.old, cs, k)),
+                                           pats=lambda k: [cs_at(c.old, cs, k)])),
+            ("assert:bridge-new-to-old", Q([I], lambda k: (z3.And(0 <= k, k < n0), cs_at(c.new, cs, k) == cs_at(c.old, cs, k)),
+                                           pats=lambda k: [cs_at(c.new, cs, k)]))]
+
+
 def prefix(c, cs):
     """old slots are a prefix of new slots (instruction times never move)."""
     n0 = cs_len(c.old, cs)
-    return [("append-only.len", cs_len(c.new, cs) >= n0),
+    return bridges(c, cs) + [("append-only.len", cs_len(c.new, cs) >= n0),
             ("append-only.prefix", Q([I], lambda k: (z3.And(0 <= k, k < n0), cs_at(c.new, cs, k) == cs_at(c.old, cs, k)),
                                      pats=lambda k: [cs_at(c.new, cs, k)]))]
 
@@ -154,4 +174,476 @@ contract(SF, "_ChannelSchedule.get_duration", props=("C02", "C03", "C10"),
          + EOMWF(c.old, T(c.self)) + [("valid_channel", valid_channel_f(cs_chan(T(c.self))))],
          ensures=lambda c: gd_post(c.old, T(c.self), T(c.include_fall_time), T(c.res)),
          loops={0: LoopSpec(gd_loop_inv)},
+         )
+
+
+# --------------------------------------------------------------------------
+# last_target / last_pulse_slot / _get_last_pulse_phase
+# --------------------------------------------------------------------------
+from .lib import LPSI, LTI, lps_match, lps_none, lpsi_def, lti_def, p_phase, sort_of  # noqa: E402
+from pyvc.core import B  # noqa: E402
+
+
+def _arr_n(h, cs):
+    return cs_arr(h, cs), cs_len(h, cs)
+
+
+contract(SF, "_ChannelSchedule.last_target", props=("C10",),
+         params={"self": ("ref", "_ChannelSchedule")}, result="int",
+         requires=lambda c: INV(c.old, T(c.self), only=("len>=0", "first-is-initial-target")) + [("non-empty", cs_len(c.old, T(c.self)) >= 1)],
+         spec_defs=lambda c: [lti_def(*_arr_n(c.old, T(c.self)))],
+         ensures=lambda c: (lambda arr, n: [("tf-of-most-recent-target", T(c.res) == s_tf(z3.Select(arr, LTI(arr, n))))])(*_arr_n(c.old, T(c.self))),
+         loops={0: LoopSpec(lambda c: (lambda arr, n: [
+             ("visited-are-not-targets", Q([I], lambda i: (z3.And(n - c.j <= i, i < n), s_kind(z3.Select(arr, i)) != TARGET),
+                                          pats=lambda i: [z3.Select(arr, i)]))])(*_arr_n(c.new, T(c.self))))},
+         )
+
+contract(SF, "_ChannelSchedule.last_pulse_slot", props=("C10", "C03"),
+         params={"self": ("ref", "_ChannelSchedule"), "ignore_detuned_delay": "bool"}, result=("ref", "_TimeSlot"),
+         requires=lambda c: INV(c.old, T(c.self), only=("len>=0",)),
+         spec_defs=lambda c: [lpsi_def(*_arr_n(c.old, T(c.self)), T(c.ignore_detuned_delay)), IDD_DEF],
+         ensures=lambda c: (lambda arr, n, ign: [
+             ("is-most-recent-matching-slot", T(c.res) == z3.Select(arr, LPSI(arr, n, ign))),
+             ("index-in-range", z3.And(0 <= LPSI(arr, n, ign), LPSI(arr, n, ign) < n)),
+             ("matches", lps_match(arr, LPSI(arr, n, ign), ign)),
+             ("none-later", Q([I], lambda k: (z3.And(LPSI(arr, n, ign) < k, k < n), z3.Not(lps_match(arr, k, ign))), pats=lambda k: [z3.Select(arr, k)])),
+         ])(*_arr_n(c.old, T(c.self)), T(c.ignore_detuned_delay)),
+         raises={"RuntimeError": lambda c: lps_none(*_arr_n(c.old, T(c.self)), T(c.ignore_detuned_delay))},
+         loops={0: LoopSpec(lambda c: (lambda arr, n, ign: [
+             ("visited-do-not-match", Q([I], lambda i: (z3.And(n - c.j <= i, i < n), z3.Not(lps_match(arr, i, ign))),
+                                        pats=lambda i: [z3.Select(arr, i)]))])(*_arr_n(c.new, T(c.self)), T(c.a["ignore_detuned_delay"])))},
+         )
+
+from .lib import IS_DETUNED_DELAY  # noqa: E402
+_pp = z3.Const("p!idd", Ref)
+IDD_DEF = z3.BoolVal(True)   # is_detuned_delay is given its own contract below (result == IS_DETUNED_DELAY(pulse))
+
+contract(SF, "_ChannelSchedule.is_detuned_delay", props=("C10", "C06"), trusted=True,
+         note="reads waveform classes and amplitude[0] (numpy sample); IS_DETUNED_DELAY is its spec function",
+         params={"pulse": ("ref", "Pulse")}, result="bool",
+         ensures=lambda c: [("is-spec", T(c.res) == IS_DETUNED_DELAY(T(c.pulse)))])
+
+
+def last_phase_post(h, cs, res):
+    arr, n = _arr_n(h, cs)
+    f = z3.BoolVal(False)
+    return [("phase-of-most-recent-pulse", z3.If(lps_none(arr, n, f), res == 0, res == p_phase(s_pulse(z3.Select(arr, LPSI(arr, n, f))))))]
+
+
+contract(SF, "_Schedule._get_last_pulse_phase", props=("C15",),
+         params={"self": ("ref", "_Schedule"), "channel": "str"}, result="real",
+         requires=lambda c: [has_channel(c)] + INV(c.old, S(c), only=("len>=0",)),
+         ensures=lambda c: last_phase_post(c.old, S(c), T(c.res)),
+         )
+
+
+# --------------------------------------------------------------------------
+# writers
+# --------------------------------------------------------------------------
+def writer_requires(c, cs=None):
+    cs = cs if cs is not None else S(c)
+    return [has_channel(c)] + INV(c.old, cs) + EOMWF(c.old, cs) + [
+        ("valid_channel", valid_channel_f(cs_chan(cs))),
+        ("within-max-sequence-duration", MAXD(c.old, T(c.self), cs)),
+        ("schedule-wf", SCHED_WF(c.old, T(c.self))),
+    ]
+
+
+def MAXD(h, sch, cs):
+    """INV.6: no boundary beyond the device's maximum sequence duration."""
+    n = cs_len(h, cs)
+    return z3.Or(sch_maxdur_none(sch), n == 0, s_tf(cs_at(h, cs, n - 1)) <= sch_maxdur(sch))
+
+
+def SCHED_WF(h, sch):
+    """distinct keys map to distinct, allocated channel schedules."""
+    from pyvc.core import PStr
+    a, b = z3.Const("a!wf", PStr), z3.Const("b!wf", PStr)
+    dom, mp = sch_dom(h, sch), sch_map(h, sch)
+    alloc = h.get("$alloc")
+    return z3.And(
+        z3.ForAll([a, b], z3.Implies(z3.And(z3.Select(dom, a), z3.Select(dom, b), a != b), z3.Select(mp, a) != z3.Select(mp, b)),
+                  patterns=[z3.MultiPattern(z3.Select(mp, a), z3.Select(mp, b))]),
+        z3.ForAll([a], z3.Implies(z3.Select(dom, a), z3.Select(alloc, z3.Select(mp, a))), patterns=[z3.Select(mp, a)]))
+
+
+def appended_one(c, cs):
+    n0 = cs_len(c.old, cs)
+    return cs_len(c.new, cs) == n0 + 1, cs_at(c.new, cs, n0), cs_at(c.old, cs, n0 - 1)
+
+
+def add_delay_ensures(c):
+    cs = S(c)
+    ch = cs_chan(cs)
+    n0 = cs_len(c.old, cs)
+    one, new, last = appended_one(c, cs)
+    d = T(c.duration)
+    r = s_tf(new) - s_ti(new)
+    detuned = z3.And(in_eom(c.old, cs), eb_det_off(eb_at(c.old, cs, eb_len(c.old, cs) - 1)) != 0)
+    return [
+        ("appends-one-slot", one),
+        ("starts-at-previous-end", s_ti(new) == s_tf(last)),
+        ("lasts-a-clock-multiple", Al(clock(ch), r)),
+        ("lasts-the-validated-duration", z3.And(r >= d, r < d + clock(ch), r >= min_dur(ch))),
+        ("keeps-targets", s_targets(new) == s_targets(last)),
+        ("kind", z3.If(detuned,
+                       z3.And(s_kind(new) == PULSE, IS_DETUNED_DELAY(s_pulse(new)), p_duration(s_pulse(new)) == r),
+                       s_kind(new) == DELAY)),
+        ("within-max-sequence-duration", MAXD(c.new, T(c.self), cs)),
+    ] + prefix(c, cs) + [(f"INV.{nm}", cl) for nm, cl in INV(c.new, cs, split=[n0])]
+
+
+from .lib import eb_det_off  # noqa: E402
+
+contract(SF, "_Schedule.add_delay", props=("C01", "C02", "C09"),
+         params={"self": ("ref", "_Schedule"), "duration": "int", "channel": "str"},
+         requires=writer_requires,
+         ensures=add_delay_ensures,
+         raises={
+             "ValueError": lambda c: (lambda ch, d: z3.Or(cs_len(c.old, S(c)) == 0, d < min_dur(ch), z3.And(z3.Not(max_dur_none(ch)), d > max_dur(ch))))(cs_chan(S(c)), T(c.duration)),
+             "RuntimeError": ("only-if", lambda c: z3.Not(sch_maxdur_none(T(c.self)))),
+         },
+         modifies={SLOTS: lambda c: [S(c)]},
+         exc_safe=True,
+         )
+
+
+def most_recent_pulse(h, cs, k):
+    """k is the index of the most recent pulse slot of cs in heap h."""
+    n = cs_len(h, cs)
+    j = z3.Int("j!mrp")
+    return z3.And(0 <= k, k < n, s_kind(cs_at(h, cs, k)) == PULSE,
+                  z3.ForAll([j], z3.Implies(z3.And(k < j, j < n), s_kind(cs_at(h, cs, j)) != PULSE), patterns=[cs_at(h, cs, j)]))
+
+
+def at_rest(c, cs, hnew):
+    """the channel's end is past the most recent pulse's end + fall time (in the *old* EOM mode)."""
+    n1 = cs_len(hnew, cs)
+    ch = cs_chan(cs)
+    return Q([I], lambda k: (most_recent_pulse(c.old, cs, k),
+                             s_tf(cs_at(hnew, cs, n1 - 1)) >= s_tf(cs_at(c.old, cs, k)) + FALL(s_pulse(cs_at(c.old, cs, k)), ch, in_eom(c.old, cs))),
+             pats=lambda k: [cs_at(c.old, cs, k)])
+
+
+def wff_ensures(c):
+    cs = S(c)
+    n0 = cs_len(c.old, cs)
+    n1 = cs_len(c.new, cs)
+    new = cs_at(c.new, cs, n0)
+    return [
+        ("appends-at-most-one-delay", z3.Or(n1 == n0, z3.And(n1 == n0 + 1, z3.Or(s_kind(new) == DELAY, z3.And(s_kind(new) == PULSE, IS_DETUNED_DELAY(s_pulse(new)))),
+                                                           s_targets(new) == s_targets(cs_at(c.old, cs, n0 - 1))))),
+        ("at-rest", at_rest(c, cs, c.new)),
+        ("within-max-sequence-duration", MAXD(c.new, T(c.self), cs)),
+    ] + prefix(c, cs) + [(f"INV.{nm}", cl) for nm, cl in INV(c.new, cs)]
+
+
+contract(SF, "_Schedule.wait_for_fall", props=("C02", "C10", "C15"),
+         params={"self": ("ref", "_Schedule"), "channel": "str"},
+         requires=writer_requires,
+         ensures=wff_ensures,
+         raises={"ValueError": ("only-if", lambda c: z3.Not(max_dur_none(cs_chan(S(c))))),
+                 "RuntimeError": ("only-if", lambda c: z3.Not(sch_maxdur_none(T(c.self))))},
+         modifies={SLOTS: lambda c: [S(c)]},
+         exc_safe=True,
+         )
+
+
+# --------------------------------------------------------------------------
+# _find_add_delay  (C03)
+# --------------------------------------------------------------------------
+from pyvc.core import Qid, PStr, str_const  # noqa: E402
+
+
+def nonempty_inter(a, b):
+    q = z3.Const("q!ni", Qid)
+    return z3.Exists([q], z3.And(z3.Select(a, q), z3.Select(b, q)))
+
+
+def conflict(slot, T0, protocol):
+    return z3.Or(nonempty_inter(s_targets(slot), T0), protocol == str_const("wait-for-all"))
+
+
+def fall_now(h, cs, slot):
+    return FALL(s_pulse(slot), cs_chan(cs), in_eom(h, cs))
+
+
+def fall_min(h, cs, slot):
+    """fall time in the channel's current mode, or in non-EOM mode if that is shorter (DESIGN section 5 item 9)."""
+    a, b = fall_now(h, cs, slot), FALL(s_pulse(slot), cs_chan(cs), z3.BoolVal(False))
+    return z3.If(a <= b, a, b)
+
+
+def fad_ctx(c):
+    h = c.old
+    sch = T(c.self)
+    chan = T(c.a["channel"])
+    prot = T(c.a["protocol"])
+    mine = sch_get(h, sch, chan)
+    T0 = s_targets(cs_at(h, mine, cs_len(h, mine) - 1))
+    return h, sch, chan, prot, T0
+
+
+def most_recent_conflicting(h, cs, k, T0, prot):
+    n = cs_len(h, cs)
+    j = z3.Int("j!mrc")
+    return z3.And(0 <= k, k < n, s_kind(cs_at(h, cs, k)) == PULSE, conflict(cs_at(h, cs, k), T0, prot),
+                  z3.ForAll([j], z3.Implies(z3.And(k < j, j < n, s_kind(cs_at(h, cs, j)) == PULSE), z3.Not(conflict(cs_at(h, cs, j), T0, prot))),
+                            patterns=[cs_at(h, cs, j)]))
+
+
+def no_conflict_on(h, cs, T0, prot, cur, fall=fall_min):
+    return Q([I], lambda k: (most_recent_conflicting(h, cs, k, T0, prot), cur >= s_tf(cs_at(h, cs, k)) + fall(h, cs, cs_at(h, cs, k))),
+             pats=lambda k: [cs_at(h, cs, k)])
+
+
+def caused_by_some_pulse(h, sch, chan, T0, prot, cur, key_ok=None):
+    """exists another channel key and a conflicting pulse slot k there with cur == tf + fall."""
+    key = z3.Const("key!ex", PStr)
+    k = z3.Int("k!ex")
+    cs = sch_get(h, sch, key)
+    cond = z3.And(sch_has(h, sch, key), key != chan, 0 <= k, k < cs_len(h, cs), s_kind(cs_at(h, cs, k)) == PULSE,
+                  conflict(cs_at(h, cs, k), T0, prot), cur == s_tf(cs_at(h, cs, k)) + fall_now(h, cs, cs_at(h, cs, k)))
+    if key_ok is not None:
+        cond = z3.And(cond, key_ok(key))
+    return z3.Exists([key, k], cond)
+
+
+def fad_requires(c):
+    h = c.old
+    sch = T(c.self)
+    key = z3.Const("key!rq", PStr)
+    out = [has_channel(c), ("schedule-wf", SCHED_WF(h, sch)),
+           ("own-channel-has-target", cs_len(h, S(c)) >= 1)]
+    # every declared channel satisfies its invariant (the clauses this function relies on)
+    for nm, cl in INV(h, sch_get(h, sch, key), only=("len>=0", "kinds", "monotone", "boundaries-nonneg") + LRT_HYPS) + EOMWF(h, sch_get(h, sch, key)) + \
+            [("valid_channel", valid_channel_f(cs_chan(sch_get(h, sch, key))))]:
+        out.append((f"all-channels.{nm}", lift_over_keys(h, sch, key, cl)))
+    return out
+
+
+def lift_over_keys(h, sch, key, cl):
+    """forall key in dom: clause(map[key])"""
+    if isinstance(cl, Q):
+        return Q([PStr] + list(cl.sorts),
+                 (lambda cl: lambda kk, *vs: (lambda pc: (z3.And(sch_has(h, sch, kk), z3.substitute(pc[0], (key, kk))), _subst(pc[1], key, kk)))(cl.body(*vs)))(cl),
+                 pats=(lambda cl: lambda kk, *vs: [_pat_subst(p, key, kk) for p in cl.pats(*vs)])(cl) if cl.pats else None)
+    return Q([PStr], lambda kk: (sch_has(h, sch, kk), z3.substitute(cl, (key, kk))), pats=lambda kk: [sch_get(h, sch, kk)])
+
+
+def _subst(x, key, kk):
+    if isinstance(x, Al):
+        return Al(z3.substitute(x.c, (key, kk)), z3.substitute(x.x, (key, kk)))
+    return z3.substitute(x, (key, kk))
+
+
+def _pat_subst(p, key, kk):
+    if isinstance(p, (tuple, list)):
+        return tuple(z3.substitute(x, (key, kk)) for x in p)
+    return z3.substitute(p, (key, kk))
+
+
+def fad_ensures(c):
+    h, sch, chan, prot, T0 = fad_ctx(c)
+    res = T(c.res)
+    key = z3.Const("key!en", PStr)
+    return [
+        ("not-before-t0", res >= T(c.t0)),
+        ("minimal", z3.Or(res == T(c.t0), caused_by_some_pulse(h, sch, chan, T0, prot, res))),
+        ("no-conflict", Q([PStr, I], lambda kk, k: (z3.And(sch_has(h, sch, kk), kk != chan, most_recent_conflicting(h, sch_get(h, sch, kk), k, T0, prot)),
+                                                  res >= s_tf(cs_at(h, sch_get(h, sch, kk), k)) + fall_min(h, sch_get(h, sch, kk), cs_at(h, sch_get(h, sch, kk), k))),
+                          pats=lambda kk, k: [cs_at(h, sch_get(h, sch, kk), k)])),
+    ]
+
+
+def fad_outer_inv(c):
+    h, sch, chan, prot, T0 = fad_ctx(c)
+    cur = T(c.st.env["current_max_t"])
+    order = T(c.st.env["__keyorder__"])
+    idx = T(c.st.env["__keyidx__"])
+    J = c.j
+    visited = lambda kk: z3.And(sch_has(h, sch, kk), z3.Select(idx, kk) < J)
+    return [
+        ("not-before-t0", cur >= T(c.a["t0"])),
+        ("minimal", z3.Or(cur == T(c.a["t0"]), caused_by_some_pulse(h, sch, chan, T0, prot, cur))),
+        ("no-conflict-on-visited", Q([PStr, I], lambda kk, k: (z3.And(visited(kk), kk != chan, most_recent_conflicting(h, sch_get(h, sch, kk), k, T0, prot)),
+                                                             cur >= s_tf(cs_at(h, sch_get(h, sch, kk), k)) + fall_min(h, sch_get(h, sch, kk), cs_at(h, sch_get(h, sch, kk), k))),
+                                     pats=lambda kk, k: [cs_at(h, sch_get(h, sch, kk), k)])),
+    ]
+
+
+def fad_inner_inv(c):
+    h, sch, chan, prot, T0 = fad_ctx(c)
+    cur = T(c.st.env["current_max_t"])
+    cur0 = T(c.x["pre"].env["current_max_t"])
+    cs = T(c.st.env["ch_schedule"])
+    n = cs_len(h, cs)
+    i = c.j
+    R2 = 2 * RISE(cs_chan(cs))
+    at = lambda v: cs_at(h, cs, v)
+    return [
+        ("cur-unchanged", cur == cur0),
+        ("visited-do-not-matter", Q([I], lambda v: (z3.And(n - i <= v, v < n),
+                                                     z3.If(s_kind(at(v)) == PULSE,
+                                                           z3.And(s_tf(at(v)) + fall_now(h, cs, at(v)) > cur, z3.Not(conflict(at(v), T0, prot))),
+                                                           s_tf(at(v)) + R2 > cur)),
+                                    pats=lambda v: [at(v)])),
+    ]
+
+
+def fad_lemmas(c):
+    from pyvc.vc import Engine
+    h, sch = c.old, T(c.self)
+    eng = Engine(None, None, {}, [])
+
+    def body(kk, q, k):
+        cs = sch_get(h, sch, kk)
+        arr, n, ch = cs_arr(h, cs), cs_len(h, cs), cs_chan(cs)
+        hyps = [eng.clause_formula(cl) for _, cl in INVA(arr, n, ch, only=LRT_HYPS)]
+        prem, concl = lrt_concl(arr, n, ch).body(q, k)
+        return z3.And(sch_has(h, sch, kk), *hyps, prem), concl
+    return [("L-first-retarget", Q([PStr, I, I], body,
+                                   pats=lambda kk, q, k: [(cs_at(h, sch_get(h, sch, kk), q), cs_at(h, sch_get(h, sch, kk), k))]))]
+
+
+contract(SF, "_Schedule._find_add_delay", props=("C03",), lemmas=fad_lemmas,
+         params={"self": ("ref", "_Schedule"), "t0": "int", "channel": "str", "protocol": "str"}, result="int",
+         requires=fad_requires,
+         ensures=fad_ensures,
+         loops={0: LoopSpec(fad_outer_inv), 1: LoopSpec(fad_inner_inv)},
+         )
+
+
+# --------------------------------------------------------------------------
+# Lemma L-first-retarget (DESIGN C03): proved once over generic (arr, n, ch), used as an implication instance
+# --------------------------------------------------------------------------
+from pyvc.contracts import lemma  # noqa: E402
+from .lib import SlotArr, uf  # noqa: E402
+
+FIRSTDIFF = uf("FIRSTDIFF", SlotArr, I, I, I)   # least index in (q, k] whose targets differ from slot q's
+
+
+def firstdiff_def(arr, q, k):
+    """Conservative definition by well-ordering: if some t in (q,k] differs, FIRSTDIFF is the least such."""
+    t, j = z3.Int("t!fd"), z3.Int("j!fd")
+    G = FIRSTDIFF(arr, q, k)
+    diff = lambda x: s_targets(z3.Select(arr, x)) != s_targets(z3.Select(arr, q))
+    return [z3.ForAll([t], z3.Implies(z3.And(q < t, t <= k, diff(t)), z3.And(q < G, G <= t, diff(G))), patterns=[z3.Select(arr, t)]),
+            z3.ForAll([j], z3.Implies(z3.And(q < j, j < G), z3.Not(diff(j))), patterns=[z3.Select(arr, j)])]
+
+
+LRT_HYPS_ = ("len>=0", "kinds", "monotone", "contiguous", "targets-change-only-at-target-slots", "retarget-after-fall")
+
+
+def lrt_concl(arr, n, ch):
+    at = lambda x: z3.Select(arr, x)
+    j = z3.Int("j!lrt")
+    return Q([I, I], lambda q, k: (
+        z3.And(0 <= q, q < k, k < n, s_kind(at(q)) == PULSE, s_kind(at(k)) == PULSE, s_targets(at(q)) != s_targets(at(k)),
+               z3.ForAll([j], z3.Implies(z3.And(q < j, j < k, s_kind(at(j)) == PULSE), s_targets(at(j)) != s_targets(at(q))), patterns=[at(j)])),
+        s_tf(at(q)) + FALL(s_pulse(at(q)), ch, z3.BoolVal(False)) <= s_tf(at(k))),
+        pats=lambda q, k: [(at(q), at(k))])
+
+
+def lrt_build():
+    arr, n, ch = z3.Const("arr!L", SlotArr), z3.Int("n!L"), z3.Const("ch!L", Ref)
+    hyps = INVA(arr, n, ch, only=LRT_HYPS)
+    return hyps, lrt_concl(arr, n, ch), lambda q, k: firstdiff_def(arr, q, k)
+
+
+lemma("L-first-retarget", lrt_build,
+      "a pulse that is followed by a pulse with different targets had fully ramped down (non-EOM fall time) before that later pulse ended: "
+      "the first slot with different targets is a target slot (INV targets-change-only-at-target-slots) and retargets wait for the fall (INV retarget-after-fall)")
+
+
+# --------------------------------------------------------------------------
+# make_next_pulse_slot (C03, C10, C07)
+# --------------------------------------------------------------------------
+from .lib import PJT, p_phase as _pph  # noqa: E402
+from .pulse import valid_pulse  # noqa: E402
+NO_DELAY = str_const("no-delay")
+
+
+def mnps_requires(c):
+    cs = S(c)
+    return fad_requires(c)[:2] + fad_requires(c)[3:] + INV(c.old, cs, only=("len>=0", "monotone", "kinds", "contiguous")) + [
+        ("valid_channel", valid_channel_f(cs_chan(cs)))] + EOMWF(c.old, cs) + [
+        ("valid-pulse", valid_pulse(T(c.pulse)))]
+
+
+def seq_all(sv, f):
+    j = z3.Int("j!sa")
+    return z3.ForAll([j], z3.Implies(z3.And(0 <= j, j < sv.n), f(z3.Select(sv.arr, j))), patterns=[z3.Select(sv.arr, j)])
+
+
+def seq_some(sv, f):
+    j = z3.Int("j!ss")
+    return z3.Exists([j], z3.And(0 <= j, j < sv.n, f(z3.Select(sv.arr, j))))
+
+
+def mnps_ensures(c):
+    h, sch, chan, prot, T0 = fad_ctx(c)
+    cs = S(c)
+    ch = cs_chan(cs)
+    arr, n = cs_arr(h, cs), cs_len(h, cs)
+    last = cs_at(h, cs, n - 1)
+    t0 = s_tf(last)
+    res = T(c.res)
+    ti, tf = s_ti(res), s_tf(res)
+    D = ti - t0
+    cc, m = clock(ch), min_dur(ch)
+    bts = c.phase_barrier_ts
+    nodelay = prot == NO_DELAY
+    drift_none = c.phase_drift_params.none
+    P = z3.Select(arr, LPSI(arr, n, z3.BoolVal(True)))
+    has_P = z3.Not(lps_none(arr, n, z3.BoolVal(True)))
+    eom = in_eom(h, cs)
+    pj_bound = s_tf(P) + z3.If(PJT(ch) >= 2 * RISE(ch) * z3.If(eom, 1, 0), PJT(ch), 2 * RISE(ch) * z3.If(eom, 1, 0)) + FALL(s_pulse(P), ch, eom)
+    phase_changes = z3.Or(z3.Not(drift_none), _pph(s_pulse(P)) != _pph(T(c.pulse)))
+    low = ti - cc
+    lower_bounds = z3.Or(
+        low < t0 + m,
+        seq_some(bts, lambda b: low < z3.If(b >= t0 + m, b, t0 + m)),
+        z3.And(z3.Not(nodelay), caused_by_some_pulse_lt(h, sch, chan, T0, prot, low, t0 + m)),
+        z3.And(z3.Not(nodelay), has_P, phase_changes, low < z3.If(pj_bound >= t0 + m, pj_bound, t0 + m)))
+    return [
+        ("is-a-pulse-slot", s_kind(res) == PULSE),
+        ("keeps-targets", s_targets(res) == s_targets(last)),
+        ("occupies-its-duration", tf == ti + p_duration(s_pulse(res))),
+        ("same-waveforms", z3.And(p_duration(s_pulse(res)) == p_duration(T(c.pulse)),
+                                  z3.Implies(drift_none, s_pulse(res) == T(c.pulse)))),
+        ("not-before-channel-end", ti >= t0),
+        ("after-phase-barriers", seq_all(bts, lambda b: ti >= b)),
+        ("delay-is-zero-or-valid", z3.Or(D == 0, z3.And(D >= m, z3.Or(max_dur_none(ch), D <= max_dur(ch))))),
+        ("delay-is-clock-multiple", Al(cc, D)),
+        ("no-delay-starts-at-end-or-barrier", z3.Implies(nodelay, z3.Or(
+            ti == t0, seq_some(bts, lambda b: ti == b),
+            z3.And(D > 0, z3.Or(low < t0 + m, seq_some(bts, lambda b: low < z3.If(b >= t0 + m, b, t0 + m))))))),
+        ("no-conflict", Q([PStr, I], lambda kk, k: (z3.And(z3.Not(nodelay), sch_has(h, sch, kk), kk != chan, most_recent_conflicting(h, sch_get(h, sch, kk), k, T0, prot)),
+                                                  ti >= s_tf(cs_at(h, sch_get(h, sch, kk), k)) + fall_min(h, sch_get(h, sch, kk), cs_at(h, sch_get(h, sch, kk), k))),
+                          pats=lambda kk, k: [cs_at(h, sch_get(h, sch, kk), k)])),
+        ("phase-jump-buffer", z3.Implies(z3.And(z3.Not(nodelay), has_P, drift_none, _pph(s_pulse(P)) != _pph(T(c.pulse))), ti >= pj_bound)),
+        ("earliest-allowed", z3.Or(D == 0, lower_bounds)),
+        ("within-max-sequence-duration", z3.Implies(T(c.block_over_max_duration), z3.Or(sch_maxdur_none(sch), tf <= sch_maxdur(sch)))),
+    ]
+
+
+def caused_by_some_pulse_lt(h, sch, chan, T0, prot, low, floor):
+    key = z3.Const("key!lt", PStr)
+    k = z3.Int("k!lt2")
+    cs = sch_get(h, sch, key)
+    e = s_tf(cs_at(h, cs, k)) + fall_now(h, cs, cs_at(h, cs, k))
+    return z3.Exists([key, k], z3.And(sch_has(h, sch, key), key != chan, 0 <= k, k < cs_len(h, cs), s_kind(cs_at(h, cs, k)) == PULSE,
+                                      conflict(cs_at(h, cs, k), T0, prot), low < z3.If(e >= floor, e, floor)))
+
+
+contract(SF, "_Schedule.make_next_pulse_slot", props=("C03", "C10", "C07", "C01"), lemmas=None,
+         params={"self": ("ref", "_Schedule"), "pulse": ("ref", "Pulse"), "channel": "str", "phase_barrier_ts": ("list", "int"),
+                 "protocol": "str", "phase_drift_params": ("opt", ("ref", "_PhaseDriftParams")), "block_over_max_duration": "bool"},
+         result=("ref", "_TimeSlot"),
+         requires=mnps_requires,
+         ensures=mnps_ensures,
+         raises={"ValueError": ("only-if", lambda c: z3.Or(cs_len(c.old, S(c)) == 0, z3.Not(max_dur_none(cs_chan(S(c)))))),
+                 "RuntimeError": ("only-if", lambda c: z3.And(T(c.block_over_max_duration), z3.Not(sch_maxdur_none(T(c.self))))),
+                 },
          )
